@@ -13,8 +13,10 @@ import (
 
 func init() {
 	register(&Property{
-		ID:  "C16",
-		Gen: genC16,
+		ID:    "C16",
+		Files: []string{"fp.go"},
+		Funcs: []string{"PMap", "pMapPreserveOrder", "pMapNoOrder"},
+		Gen:   genC16,
 		Rule: "lists of length 0..8 (thorough 0..16) with unique elements x option (nil, FixedPool in {-1,0,1,len-1,len,len+3}) x RandomOrder; f logs begin, sleeps a data-dependent virtual duration " +
 			"(including 'later elements finish first'), yields, logs end; PMap's producer/worker/closer goroutines are simulated threads; oracles: ordered result == Map, random result is a permutation, " +
 			"f applied exactly once per element and to nothing else, concurrency gauge <= min(FixedPool,len), PMap returns after the last application and within the horizon; " +
